@@ -187,7 +187,7 @@ class IoThreadFunc(ProducerContract):
             hd[f] = SArray((mul(nIw, nXw),), (lambda gg: (lambda idx: mk_int(gg(zint(idx[0])))))(g), 'int32')
         reader = None
         if self.minimal:
-            reader = SObj(prog.klass('MinimalInlineReader'), dict(segyfile=seg, n_il=nI, n_xl=nX, n_samp=nZ))
+            reader = mk_minimal_reader(c, prog, seg, 5)
             c.assume(eq(il0, 0), eq(xl0, 0), eq(nIw, nI), eq(nXw, nX))
         return dict(blockshape=(b0, b1, b2), store_headers=True, headers_dict=hd, geom=geom, plane_set_id=ps, planes_to_read=ptr,
                     seismic_buffer=buf, seismicfile=seg, minimal_il_reader=reader, trace_length=nZ,
@@ -225,8 +225,8 @@ class IoThreadFunc(ProducerContract):
 
 IO_KEY = 'conversion_utils.py::io_thread_func'
 for _b0 in (4, 8):
-    for _min in (False,):
-        _cls = type(f'IoThreadFunc_b{_b0}', (IoThreadFunc,), dict(b0=_b0, minimal=_min, variant=f'b0={_b0}'))
+    for _min in (False, True):
+        _cls = type(f'IoThreadFunc_b{_b0}' + ('_min' if _min else ''), (IoThreadFunc,), dict(b0=_b0, minimal=_min, variant=f'b0={_b0}' + (',reduced-I/O reader' if _min else '')))
         _cls.loops = {(IO_KEY, _b0 * 0 + k): L.IndependentWrites(witness=_hdr_witness) for k in range(1, 40)}
         fuc(IO_KEY, props=['C01', 'C04', 'C11'])(_cls)
 
@@ -257,8 +257,17 @@ class IoThreadFuncModular(IoThreadFunc):
         geom = a['geom']
         nIw = sub(geom.fields['ilines'].stop, geom.fields['ilines'].start)
         buf = a['seismic_buffer']
+        rdr = a['minimal_il_reader']
+        seg = a['seismicfile']
+        whole = True
+        if rdr is not None:
+            # the reduced-I/O variant is verified for the whole-file geometry only
+            nI_s, nX_s, _ = seg.fields['dims']
+            whole = And(eq(geom.fields['ilines'].start, 0), eq(geom.fields['xlines'].start, 0), eq(nIw, nI_s),
+                        eq(sub(geom.fields['xlines'].stop, geom.fields['xlines'].start), nX_s),
+                        mk_bool(isinstance(rdr, SObj) and rdr.fields.get('segyfile') is seg))
         return [mk_bool(isinstance(b0, int) and b0 in IO_B0),        # the body is verified for these inline block extents only
-                mk_bool(a['minimal_il_reader'] is None),
+                whole,
                 eq(a['planes_to_read'], Min(b0, sub(nIw, mul(b0, a['plane_set_id'])))), ge(a['planes_to_read'], 1),
                 mk_bool(isinstance(buf, SArray) and len(buf.shape) == 3) and eq(buf.shape[0], b0),
                 mk_bool(getattr(buf, 'fresh_zeros', False))]
@@ -348,4 +357,131 @@ class SeismicFileProducer(ProducerContract):
         c.ensure(mk_bool(len(c.ghost.get('header_rows', [])) >= 1), 'plane_sets_filled_through_io_thread_func')
 
 
-register(SeismicFileProducer, 'conversion_utils.py::seismic_file_producer', ['C01', 'C11', 'C20'], [cf for cf in ALL3 if cf[1][0] in (4, 8)], modes=('file',))
+register(SeismicFileProducer, 'conversion_utils.py::seismic_file_producer', ['C01', 'C11', 'C20'], [cf for cf in ALL3 if cf[1][0] in IO_B0], modes=('file',))
+
+
+class SelfTestAssumed(Contract):
+    """ASSUMED: MinimalInlineReader.self_test() returns some bool (it compares the reader with segyio on inline 0)"""
+    modular_use = True
+    exact_result = True
+    variant = 'assumed'
+
+    def verify(self, interp, prog, timeout_ms=None):
+        from pyvc.smt import Explorer
+        ex = Explorer(self.fuc_name()); ex.contract = self; ex.prog = prog
+        ex.note_outcome('assumed: result is an arbitrary bool; the producer must be right for both outcomes')
+        return ex, prog.function(self.key)
+
+    def fresh_result(self, c, a):
+        return c.sym_bool('self_test_passed')
+
+
+fuc('conversion_utils.py::MinimalInlineReader.self_test', props=[], modular=True)(SelfTestAssumed)
+
+
+class SeismicFileProducerRI(SeismicFileProducer):
+    """reduce_iops=True: the reduced-I/O reader is used only when it passed its self-test AND the geometry is the whole file;
+    in every other case the producer falls back to segyio -- same obligations on puts and hash either way"""
+    reduce_iops = True
+
+
+register(SeismicFileProducerRI, 'conversion_utils.py::seismic_file_producer', ['C01', 'C11', 'C20'], [cf for cf in CFG_DEFAULT[:2] + CFG_GENERAL[:2] if cf[1][0] in IO_B0], modes=('file',), tag='reduce_iops')
+
+
+
+# ---------------------------------------------------------------------------------------------
+# reduced-I/O reader: one range read per inline straight from the SEG-Y bytes (AX-SEGY-LAYOUT)
+
+from pyvc import bytesmodel as BM      # noqa: E402
+from . import ghost as GH      # noqa: E402
+K_SEGY = 5
+RL_KEY = 'conversion_utils.py::MinimalInlineReader.read_line'
+NATIVE = {5: lambda t: t, 1: lambda t: STok(MX.IBM2IEEE(t.z))}
+
+
+def segy_sample_offset(nX, nZ, i, x, z):
+    """AX-SEGY-LAYOUT (no extended textual headers, fixed trace length, 4-byte samples): sample z of trace i*nX+x"""
+    T = add(240, mul(4, nZ))
+    return add(add(3600, mul(add(mul(i, nX), x), T)), add(240, mul(4, z)))
+
+
+def mk_minimal_reader(c, prog, seg, fmt):
+    nI, nX, nZ = seg.fields['dims']
+    seg.fields['format'] = fmt
+    f = IO.new_file(K_SEGY, 'rb', '<segy>')
+    return SObj(prog.klass('MinimalInlineReader'), dict(segyfile=seg, file=f, n_il=nI, n_xl=nX, n_samp=nZ))
+
+
+class ReadLine(Contract):
+    """read_line(i): ONE range read of exactly the bytes of inline i; array[x, z] = the sample stored at the SEG-Y offset of
+    (trace i*nX+x, sample z) converted from the file's format; headers[h] = the 240 header bytes of trace i*nX+h"""
+    fmt = 5
+    may_raise = ()
+    modular_use = True
+    exact_result = True
+
+    def inputs(self, c):
+        prog = c.ex.prog
+        nI = c.sym_int('nI', lo=2, name='source.n_ilines'); nX = c.sym_int('nX', lo=2, name='source.n_xlines'); nZ = c.sym_int('nZ', lo=2, name='n_samples')
+        seg = MX.mk_segy(c, nI, nX, nZ)
+        rd = mk_minimal_reader(c, prog, seg, self.fmt)
+        i = c.sym_int('i', lo=0, name='inline_ordinal')
+        c.assume(lt(i, nI))
+        return dict(self=rd, i=i, _dims=(nI, nX, nZ))
+
+    def raises(self, c, a):
+        fmt = a['self'].fields['segyfile'].fields['format']
+        return {'RuntimeError': mk_bool(fmt not in (1, 5))}
+
+    def post(self, c, a, result):
+        nI, nX, nZ = a['_dims']
+        i = a['i']
+        T = add(240, mul(4, nZ))
+        evs = GH.reads(c)
+        c.ensure(mk_bool(len(evs) == 1), 'reads.one_range_read_per_inline', kind='ghost')
+        if evs:
+            c.ensure(And(eq(evs[0].off, add(3600, mul(mul(i, nX), T))), eq(evs[0].n, mul(nX, T))), 'reads.exactly_the_bytes_of_inline_i', kind='ghost')
+        c.ensure(mk_bool(isinstance(result, tuple) and len(result) == 2), 'returns_headers_and_array')
+        if not (isinstance(result, tuple) and len(result) == 2):
+            return
+        headers, arr = result
+        c.ensure(mk_bool(isinstance(arr, SArray) and len(arr.shape) == 2) and And(eq(arr.shape[0], nX), eq(arr.shape[1], nZ)), 'array_shape_is_one_inline')
+        e = O.skolem_index(c, (nX, nZ), base='re')
+        want = NATIVE[self.fmt](STok(BM.F32BE(z3.IntVal(K_SEGY), zint(segy_sample_offset(nX, nZ, i, e[0], e[1])))))
+        c.ensure(arr.fn(e) == want, 'array_elem_is_the_sample_at_its_segy_offset')
+        c.ensure(mk_bool(isinstance(headers, (list, SymSeq))) and eq(len(headers) if isinstance(headers, list) else headers.length, nX), 'one_header_per_trace_of_the_inline')
+        if isinstance(headers, SymSeq):
+            h = c.sym_int('rh', lo=0, name='header_position_in_inline')
+            c.assume(lt(h, nX))
+            hd = headers.item(h)
+            ok = isinstance(hd, SObj) and hd.clsname == '$segyfield' and isinstance(hd.fields.get('buf'), BM.BytesBase)
+            c.ensure(mk_bool(ok), 'header_is_a_trace_Field')
+            if ok:
+                b = hd.fields['buf']
+                q = c.sym_int('rq', lo=0, hi=239, name='header_byte')
+                t = b.tok(q)
+                c.ensure(eq(b.length, 240) and mk_bool(z3.And(t.zk() == K_SEGY, t.zo() == zint(add(add(3600, mul(add(mul(i, nX), h), T)), q)))),
+                         'header_bytes_are_the_240_header_bytes_of_that_trace')
+
+    # call-site view (AX-SEGY-LAYOUT ties the byte offsets to the abstract source XSRC / HSRC used by the producers)
+    def result(self, c, a):
+        rd = a['self']
+        seg = rd.fields['segyfile']
+        nI, nX, nZ = seg.fields['dims']
+        i = a['i']
+        arr = SArray((nX, nZ), lambda idx: MX.src(i, idx[0], idx[1]), 'float32')
+        hs = SymSeq(nX, lambda k: MX.mk_hdr(add(mul(i, nX), k), seg))
+        return (hs, arr)
+
+    def fresh_result(self, c, a):
+        T = add(240, mul(4, a['self'].fields['n_samp']))
+        IO.log_read(c, K_SEGY, add(3600, mul(mul(a['i'], a['self'].fields['n_xl']), T)), mul(a['self'].fields['n_xl'], T))
+        return self.result(c, a)
+
+    def pre(self, c, a):
+        rd = a['self']
+        return [ge(a['i'], 0), lt(a['i'], rd.fields['n_il']), mk_bool(rd.fields['segyfile'].fields.get('format') in (1, 5))]
+
+
+for _f in (5, 1, 2):
+    fuc(RL_KEY, props=['C01', 'C04', 'C07x'], modular=(_f == 5))(type(f'ReadLine_f{_f}', (ReadLine,), dict(fmt=_f, variant=f'format={_f}')))
